@@ -1,4 +1,5 @@
-import NixModel.Lemmas.C04Unlink
+import NixModel.Lemmas.C04Hist
+import NixModel.Lemmas.StoreWF
 
 /-!
 # C04 — deleting an entity removes it, what it owns and every link to it — nothing else
@@ -15,7 +16,9 @@ operation history, `history_delete` spells that out), every container and every 
 What is partial:
 * `frame_full` (only links to the deleted object disappear) is false of the code — deletion is by
   `entity_id`, and an id-keeping copy shares its id with the original (DESIGN D13):
-  `frame_partial` + `frame_counterexample`;
+  `frame_partial` + `frame_counterexample`; for every history *without* id-keeping copies the
+  frame is proved at full strength (`history_frame`, `history_delete_exact`, using the invariant
+  `WF.ids_distinct` of `Lemmas/StoreWF`);
 * `subtree_complete` assumes that the section / source hierarchy below the deleted entity is a
   finite forest (`ForestSize`) of at most `|nodes|² + 1` entities — the collection is fuel-based;
 * that HDF5 frees what became unreachable is not observable through the API and not modelled.
@@ -288,6 +291,51 @@ theorem history_delete (ops : List Op) (owner : Path) (cname : String) (key : Ke
       refine ⟨k, path_end_mem (.cons name hl hrest) (by simp), ?_⟩
       unfold doomed; rw [hi]; simpa using hin
 
+/-- **frame for every history without id-keeping copies** (the `Op` language of `Store/Step` has
+none; `ReachableFresh` adds the uuid4-freshness proviso): a successful `del c[key]` of entity `k`
+keeps every link whose target is not `k` (for sections / sources: not in the subtree of `k`), keeps
+the relative order of the links of every group, and keeps every attribute of every object -/
+theorem history_frame (g g' : Graph) (hr : Nix.Store.Lemmas.ReachableFresh g) (c : Cont) (key : Key)
+    (k : Nat) (hown : isOwning c.info.flavour = true) (ht : delTarget g c key = .ok k)
+    (hdel : contDel g c key = .ok g') :
+    (∀ (p : Nat) (l : String × Nat), l ∈ g.links p → ¬ InSub g c k l.2 → l ∈ g'.links p) ∧
+    (∀ p, (g'.links p).Sublist (g.links p)) ∧
+    (∀ x a, g'.getAttr x a = g.getAttr x a) ∧
+    g'.nodes.map (·.1) = g.nodes.map (·.1) := by
+  have hg' : g' = g.deleteAll (delIds g c k) := by
+    rw [contDel_eq, ht] at hdel
+    simp only [hown, ↓reduceIte] at hdel
+    split at hdel
+    · cases hdel
+    · simpa using hdel.symm
+  rw [hg']
+  exact ⟨fun p l hl hn => frame_distinct g c k hr.wf.ids_distinct p l hl hn,
+         fun p => deleteAll_order g _ p, deleteAll_getAttr g _, deleteAll_keys g _⟩
+
+/-- … and for the containers that delete a single id (blocks, groups, arrays, frames, tags,
+multi-tags, properties, features) the link lists afterwards are *exactly* the old ones without
+the links to `k` -/
+theorem history_delete_exact (g g' : Graph) (hr : Nix.Store.Lemmas.ReachableFresh g) (c : Cont)
+    (key : Key) (k : Nat) (i : String)
+    (hfl : c.info.flavour = .plain ∨ c.info.flavour = .features) (ht : delTarget g c key = .ok k)
+    (hi : g.entityId k = some i) (hdel : contDel g c key = .ok g')
+    (p : Nat) (l : String × Nat) : l ∈ g'.links p ↔ l ∈ g.links p ∧ l.2 ≠ k := by
+  have hown : isOwning c.info.flavour = true := by rcases hfl with h | h <;> rw [h] <;> rfl
+  have hsub : ∀ d, InSub g c k d ↔ d = k := by
+    intro d; unfold InSub; rcases hfl with h | h <;> rw [h]
+  constructor
+  · intro hl
+    have hgone := (delete_gone g g' c key k hown ht hdel k i hi (delete_ids_self g c k i hi)).2.2.2 p l hl
+    have hsubl := ((history_frame g g' hr c key k hown ht hdel).2.1 p).subset hl
+    refine ⟨hsubl, ?_⟩
+    intro e
+    apply hgone
+    show g'.getAttr l.2 "entity_id" = some i
+    rw [(history_frame g g' hr c key k hown ht hdel).2.2.1, e]
+    exact hi
+  · rintro ⟨hl, hne⟩
+    exact (history_frame g g' hr c key k hown ht hdel).1 p l hl (fun h => hne ((hsub _).mp h))
+
 /-! ## non-vacuity: a reachable file with one array linked from a group, a tag, a multi-tag
 (positions) and a feature; deleting it by name -/
 
@@ -310,6 +358,10 @@ def demoOps : List Op :=
 
 def demo : Graph := run init demoOps
 def demoAfter : Graph := step demo (.del [.name "data", .name "blk"] "data_arrays" (.str "a"))
+
+/-- the demo file is reachable by a history that meets the freshness proviso of `history_frame` -/
+example : Nix.Store.Lemmas.ReachableFresh demo :=
+  ⟨demoOps, freshHist_of_names demoOps (by decide) init, rfl⟩
 
 /-- before: the group lists both arrays, the multi-tag has positions -/
 example : ((resolve demo rootLoc [.name "data", .name "blk", .name "groups", .name "g", .name "data_arrays"]).map
